@@ -14,7 +14,9 @@ use std::collections::{BTreeMap, HashSet};
 use std::io::Write;
 use std::process::Command;
 
-const SHIM: &str = "/verif/build/getrandom_shim.so";
+fn shim_path() -> String {
+    format!("{}/build/getrandom_shim.so", verif_dir())
+}
 
 /// The mapping list of a batch: a pure function of (batch_seed, n); corpus files appended.
 pub fn batch_mappings(batch_seed: u64, n: u64, corpus: bool, large: bool) -> Vec<Vec<u8>> {
@@ -222,7 +224,7 @@ fn spawn_child(cfg: &ChildCfg) -> Result<ChildOut, String> {
         .args(["--corpus", if cfg.corpus { "1" } else { "0" }, "--large", if cfg.large { "1" } else { "0" }])
         .args(["--threads-max", &cfg.max_threads.to_string(), "--order-seed", &cfg.hash_seed.to_string()])
         .env("VERIF_HASH_SEED", cfg.hash_seed.to_string())
-        .env("LD_PRELOAD", SHIM)
+        .env("LD_PRELOAD", shim_path())
         .env_remove("PGSIM_NOASLR");
     if let Some(f) = &cfg.mapping_file {
         cmd.args(["--mapping-file", f]);
@@ -356,7 +358,7 @@ fn run_batch(batch_seed: u64, n: u64, corpus: bool, large: bool, n_children: u64
 }
 
 fn tmp_mapping_file(bytes: &[u8], tag: &str) -> String {
-    let dir = format!("{}/build/tmp", VERIF_DIR);
+    let dir = format!("{}/build/tmp", verif_dir());
     let _ = std::fs::create_dir_all(&dir);
     let path = format!("{}/c14-{}-{}.map", dir, std::process::id(), tag);
     std::fs::write(&path, bytes).expect("write tmp mapping");
@@ -384,8 +386,8 @@ pub fn replay(doc: &Value) -> i32 {
     let case = &doc["case"];
     let class = doc["class"].as_str().unwrap_or("").to_string();
     let seeds: Vec<u64> = case["hash_seeds"].as_array().map(|a| a.iter().filter_map(|x| x.as_u64()).collect()).unwrap_or_default();
-    if !std::path::Path::new(SHIM).exists() {
-        eprintln!("replay: {} missing (run ./check setup)", SHIM);
+    if !std::path::Path::new(&shim_path()).exists() {
+        eprintln!("replay: {} missing (run ./check setup)", shim_path());
         return 2;
     }
     if case["mode"].as_str() == Some("single") {
@@ -433,8 +435,8 @@ pub fn replay(doc: &Value) -> i32 {
 }
 
 pub fn main(env: &Env) -> i32 {
-    if !std::path::Path::new(SHIM).exists() {
-        eprintln!("HARNESS-ERROR: {} missing (run ./check setup)", SHIM);
+    if !std::path::Path::new(&shim_path()).exists() {
+        eprintln!("HARNESS-ERROR: {} missing (run ./check setup)", shim_path());
         return 2;
     }
     let mut rep = Report::new("C14", "exploration", env);
